@@ -29,9 +29,12 @@ type lPeer struct {
 }
 
 type lIn struct {
-	Op   string `json:"op"`
-	Proc int    `json:"proc"`
-	Peer int    `json:"peer"`
+	Op          string `json:"op"`
+	Proc        int    `json:"proc"`
+	Peer        int    `json:"peer"`
+	Held        bool   `json:"held"`        // replay of a recorded held reset
+	HeldProc    int    `json:"held_proc"`   //
+	Spontaneous bool   `json:"spontaneous"` // recorded artefact: not replayed
 }
 
 type lScript struct {
@@ -60,6 +63,8 @@ type lReset struct {
 	Observed    bool   `json:"observed"`              // the sentinel counters of all procedures were seen dropping to 0
 	Spontaneous bool   `json:"spontaneous,omitempty"` // not a scripted reset: a tick was detected in the middle of a burst
 	Timeout     bool   `json:"timeout,omitempty"`
+	Held        bool   `json:"held,omitempty"`      // the counter mutex of procedure HeldProc was held (by the harness) across this tick
+	HeldProc    int    `json:"held_proc,omitempty"` //
 }
 
 type lRec struct {
@@ -157,6 +162,7 @@ func runLimiter(sc lScript) (rec lRec) {
 		return false
 	}
 	bump()
+	lastReset := time.Now()
 
 	for _, st := range sc.Steps {
 		switch st.Op {
@@ -215,6 +221,47 @@ func runLimiter(sc lScript) (rec lRec) {
 			if !ok {
 				return rec
 			}
+			lastReset = time.Now()
+			bump()
+		case "heldreset":
+			// The counter mutex of st.Proc is held across the next tick (checkLimit descheduled while it penalises somebody:
+			// slow log, slow Disconnect). The tick itself is observed through the sentinel of another procedure.
+			other := (st.Proc + 1) % len(sc.Procs)
+			if len(sc.Procs) < 2 || time.Since(lastReset) > 240*time.Millisecond || !alive(other) || !alive(st.Proc) {
+				// too late for this interval: fall back to a plain observed reset
+				ok := waitReset()
+				rec.Steps = append(rec.Steps, lReset{Op: "reset", Observed: ok, Timeout: !ok})
+				if !ok {
+					return rec
+				}
+				lastReset = time.Now()
+				bump()
+				continue
+			}
+			time.Sleep(time.Until(lastReset.Add(250 * time.Millisecond)))
+			released := make(chan struct{})
+			go func() {
+				site = "HoldLimiterLock"
+				n.HoldLimiterLock(procName(st.Proc), 300*time.Millisecond)
+				close(released)
+			}()
+			tick := false
+			deadline := time.Now().Add(1500 * time.Millisecond)
+			for time.Now().Before(deadline) {
+				if !alive(other) {
+					tick = true
+					break
+				}
+				time.Sleep(2 * time.Millisecond)
+			}
+			tickAt := time.Now()
+			<-released
+			time.Sleep(30 * time.Millisecond)
+			rec.Steps = append(rec.Steps, lReset{Op: "reset", Observed: tick, Held: true, HeldProc: st.Proc, Timeout: !tick})
+			if !tick {
+				return rec
+			}
+			lastReset = tickAt
 			bump()
 		}
 	}
@@ -241,8 +288,12 @@ func parseLimiter(line []byte, r *hx.Rng) lScript {
 		}
 	}
 	for _, st := range raw.Steps {
-		if st.Op == "msg" || st.Op == "reset" {
-			sc.Steps = append(sc.Steps, st)
+		switch {
+		case st.Op == "reset" && st.Spontaneous:
+		case st.Op == "reset" && st.Held:
+			sc.Steps = append(sc.Steps, lIn{Op: "heldreset", Proc: st.HeldProc})
+		case st.Op == "msg" || st.Op == "reset":
+			sc.Steps = append(sc.Steps, lIn{Op: st.Op, Proc: st.Proc, Peer: st.Peer})
 		}
 	}
 	return sc
@@ -302,8 +353,24 @@ func genLimiter(r *hx.Rng, id int) lScript {
 		}
 		sc.Steps = append(sc.Steps, st...)
 	}
+	if id%4 == 3 {
+		// legal traffic over intervals whose tick meets a held counter mutex: Y never exceeds the limit within an interval and must
+		// never be penalised
+		L0, L1 := sc.Procs[0].Limit, sc.Procs[1].Limit
+		y := 1
+		st := []lIn{{Op: "reset"}}
+		st = append(st, msg(0, y, L0)...)
+		st = append(st, lIn{Op: "heldreset", Proc: 0})
+		st = append(st, msg(0, y, L0)...)
+		st = append(st, msg(1, y, L1)...)
+		st = append(st, lIn{Op: "heldreset", Proc: 1})
+		st = append(st, msg(1, y, L1)...)
+		st = append(st, msg(0, y, 1)...)
+		st = append(st, lIn{Op: "reset"})
+		sc.Steps = append(sc.Steps, st...)
+	}
 	intervals := 4 + r.Intn(4)
-	if id%4 == 1 {
+	if id%4 == 1 || id%4 == 3 {
 		intervals = 2
 	}
 	for it := 0; it < intervals; it++ {
